@@ -849,6 +849,11 @@ class Values:
             return self.call_unit(unit, meth, e, at, bound=True)
         if k == "cls":
             return V(("libinst", f[1]))
+        if k in ("libinst", "self"):
+            meth = self.find_method(f[1], "__call__")
+            if meth is not None:
+                return self.call_unit(unit, meth, e, at, bound=True)
+            return V(("unknown", f"call of instance {f[1]}"))
         if k == "builtin":
             return self.call_builtin(unit, f[1], e, at)
         if k == "stdlib":
